@@ -49,6 +49,9 @@ pub struct Unit {
     /// number of shards this unit is split into (1 = a single worker)
     pub split: usize,
     pub kind: UnitKind,
+    /// run this unit with the sibling executable `<current exe><suffix>` (another build of the
+    /// same harness, e.g. with a different cargo feature of the crate under test)
+    pub exe_suffix: Option<&'static str>,
 }
 
 impl Unit {
@@ -57,6 +60,7 @@ impl Unit {
             name: job.name.clone(),
             split: 1,
             kind: UnitKind::Explore(job),
+            exe_suffix: None,
         }
     }
     pub fn explore_split(job: Job, split: usize) -> Self {
@@ -64,6 +68,7 @@ impl Unit {
             name: job.name.clone(),
             split,
             kind: UnitKind::Explore(job),
+            exe_suffix: None,
         }
     }
     pub fn enumerate(name: impl Into<String>, split: usize, f: EnumFn) -> Self {
@@ -71,6 +76,7 @@ impl Unit {
             name: name.into(),
             split,
             kind: UnitKind::Enum(f),
+            exe_suffix: None,
         }
     }
 }
@@ -399,7 +405,15 @@ fn master(plan: Plan, tier: &str) -> i32 {
             let Some((u, sh)) = work.pop() else { break };
             let remaining = cap_secs.saturating_sub(started.elapsed().as_secs()).max(5);
             let out = tmpdir.join(format!("u{u}-s{}.json", sh.0));
-            let child = Command::new(&exe)
+            let unit_exe = match plan.units[u].exe_suffix {
+                None => exe.clone(),
+                Some(sfx) => {
+                    let mut name = exe.file_name().unwrap().to_os_string();
+                    name.push(sfx);
+                    exe.with_file_name(name)
+                }
+            };
+            let child = Command::new(&unit_exe)
                 .arg(property)
                 .arg(tier)
                 .arg("--unit")
